@@ -21,6 +21,8 @@ RULE = (
     'the shadow state, and at quiescence (lost lock). non-trivial = injected signal landed, or '
     'the un-injected reference; distinct = activation trace'
 )
+RULE = RULE + (' Further: locks that served earlier simulations, clocks that absorb every delay or start below zero.')
+
 LEVEL_TEXT = (
     'Fault enumeration by runtime monitoring: the real Lock is driven by generated contenders '
     'while signals are injected at every activation boundary (thorough), including the window '
